@@ -64,6 +64,8 @@ type State struct {
 	epoch   int // number of whole-heap havocs so far on this path
 	trace   []string
 	run     *FnRun
+	csAcq   *State // snapshot at the last lock acquisition
+	csRel   *State // snapshot at the last lock release
 }
 
 func (st *State) clone() *State {
@@ -81,6 +83,8 @@ func (st *State) clone() *State {
 		epoch:   st.epoch,
 		trace:   st.trace[:len(st.trace):len(st.trace)],
 		run:     st.run,
+		csAcq:   st.csAcq,
+		csRel:   st.csRel,
 	}
 	for k, v := range st.regs {
 		n.regs[k] = v
